@@ -1,3 +1,63 @@
-From Gleece Require Import Base.Bytes Model.Project Model.Spec.
-Theorem placeholder : True. Proof. exact I. Qed.
-Print Assumptions placeholder.
+(* C01 - The generated document has an operation for (verb, path) exactly when some
+   non-hidden annotated method has that verb and normalised path, one operation per slot,
+   labelled (operationId, tag, deprecated) as such a method of its own controller.
+   Only statements here; every proof is [exact lemma] (Proofs/SpecProofs.v).  The model
+   function is [spec_ops] (Model/Spec.v), the one the correspondence check runs against
+   the swagen 3.0/3.1 emitters on every run. *)
+From Gleece Require Import Base.Bytes Model.Project Model.Spec Proofs.SpecProofs.
+From Coq Require Import String.
+Open Scope list_scope.
+
+(* the boolean oracle evaluated on implementation output is the property's statement *)
+Theorem C01_oracle_spec : forall p d,
+  prop_C01 p d = true <->
+  (forall o, In o d ->
+     exists c m, In c (p_controllers p) /\ In m (c_methods c) /\ witness c m o = true) /\
+  (forall c m, In c (p_controllers p) -> In m (c_methods c) -> m_hidden m = false ->
+     exists o, In o d /\ o_verb o = m_verb m /\
+               o_path o = remove_dup_slash (c_route c ++ m_route m)) /\
+  (forall o, In o d -> List.length (filter (same_slot o) d) = 1).
+Proof. exact prop_C01_spec. Qed.
+
+(* for every abstract project (any number of controllers and methods, duplicated slots,
+   hidden methods, any security, any configuration) the emitted document satisfies it *)
+Theorem C01_holds : forall p d, spec_ops p = Some d -> prop_C01 p d = true.
+Proof. exact spec_ops_C01. Qed.
+
+Theorem C01_sound_complete : forall p d, spec_ops p = Some d -> P_C01 p d.
+Proof. exact spec_ops_P_C01. Qed.
+
+(* ingredients: the emitter visits exactly the declared routes, whatever the sort does *)
+Theorem C01_routes_order_free : forall p c m, In (c, m) (routes_of p) <-> In (c, m) (all_routes p).
+Proof. exact in_routes_of. Qed.
+
+Theorem C01_set_operation_spec : forall d o o',
+  In o' (set_operation d o) <-> (In o' d /\ same_slot o' o = false) \/ o' = o.
+Proof. exact in_set_operation. Qed.
+
+(* non-vacuity: two controllers (sorted the other way round), a hidden method, two methods
+   in one slot (the later one wins), a double slash; the document is accepted, has four
+   operations, satisfies the oracle, and three tampered documents do not *)
+Example C01_nonvacuous :
+  spec_ops demo_project = Some demo_doc /\ List.length demo_doc = 4 /\
+  prop_C01 demo_project demo_doc = true /\
+  prop_C01 demo_project (tl demo_doc) = false /\
+  prop_C01 demo_project (demo_doc ++ demo_doc) = false /\
+  prop_C01 demo_project (map (fun o => with_id o (s "GetOld")) demo_doc) = false.
+Proof. exact demo_C01. Qed.
+
+Example C01_demo_document :
+  spec_ops demo_project = Some demo_doc /\
+  map (fun o => (o_verb o, o_path o, o_id o)) demo_doc =
+    [(s "POST", s "/files/upload", s "Upload"); (s "DELETE", s "/files/{id}", s "Delete");
+     (s "GET", s "/users/{id}", s "Get"); (s "POST", s "/users/", s "Create")] /\
+  params_linked demo_project = true.
+Proof. exact demo_accepted. Qed.
+
+Print Assumptions C01_oracle_spec.
+Print Assumptions C01_holds.
+Print Assumptions C01_sound_complete.
+Print Assumptions C01_routes_order_free.
+Print Assumptions C01_set_operation_spec.
+Print Assumptions C01_nonvacuous.
+Print Assumptions C01_demo_document.
